@@ -47,3 +47,51 @@ Definition agree_gen_stream (k : bool * (universe * gen_case)) : bool :=
               | _ => false
               end).
 Definition unmodelled_stream (k : bool * (universe * gen_case)) : bool := modelled (snd k).
+
+(* ---------------------------------------------------------------- the specification oracle *)
+(* Spec/MetaSpec.v judged on what the IMPLEMENTATION emitted: inside the guard of theorem
+   C03b_eventgen_matches_metadata the observed events, after the writer's xsi:nil rule, must
+   be the events the description prescribes. *)
+From XV Require Import Spec.MetaSpec Model.Builder.
+
+Definition spec_guard (D : mdesc) (pns : cls -> option str) (v : value) : bool :=
+  wf_desc D && typed_value D (S (sdepth v)) v && cache_consistent D pns (S (sdepth v)) None None v
+  && inherit_consistent D (S (sdepth v)) None None None v && token_lists_ok D (S (sdepth v)) v.
+
+(* hostile?, exported universe, description, recorded parent namespaces, the run *)
+Definition full_case := (bool * universe * mdesc * list (cls * option str) * gen_case)%type.
+
+Definition fc_agree (x : full_case) : bool :=
+  let '(h, u, _, _, k) := x in agree_gen_stream (h, (u, k)).
+Definition fc_modelled (x : full_case) : bool :=
+  let '(_, u, _, _, k) := x in modelled (u, k).
+
+Definition spec_matches (D : mdesc) (k : gen_case) (r : gres (list wevent)) : bool :=
+  match r with
+  | Ok evs => list_eqb wevent_eqb (norm_nil evs)
+                (spec_events (conv_of_table (gc_table k)) D (gc_ignore k) (gc_value k))
+  | Err _ => false
+  end.
+
+Definition fc_in_guard (x : full_case) : bool :=
+  let '(_, _, D, pns, k) := x in spec_guard D (pns_of_list pns) (gc_value k).
+
+(* the specification judged on the implementation's answer, inside the guard / unconditionally *)
+Definition fc_oracle_raw (x : full_case) : bool :=
+  let '(_, _, D, _, k) := x in spec_matches D k (gc_observed k).
+Definition fc_oracle (x : full_case) : bool := negb (fc_in_guard x) || fc_oracle_raw x.
+
+(* the theorem's statement evaluated on the case: the MODEL on the MODEL's universe *)
+Definition fc_theorem (x : full_case) : bool :=
+  let '(_, _, D, pns, k) := x in
+  negb (fc_in_guard x)
+  || spec_matches D k (generate (gc_ignore k) (conv_of_table (gc_table k)) (universe_of D (pns_of_list pns)) (gc_value k)).
+
+(* which guard clause excludes the case: 1 wf_desc 2 typed 3 cache 4 token lists 5 inheritance *)
+Definition fc_guard_clauses (x : full_case) : list N :=
+  let '(_, _, D, pns, k) := x in
+  let v := gc_value k in
+  (if wf_desc D then [] else [1%N]) ++ (if typed_value D (S (sdepth v)) v then [] else [2%N])
+  ++ (if cache_consistent D (pns_of_list pns) (S (sdepth v)) None None v then [] else [3%N])
+  ++ (if token_lists_ok D (S (sdepth v)) v then [] else [4%N])
+  ++ (if inherit_consistent D (S (sdepth v)) None None None v then [] else [5%N]).
